@@ -537,31 +537,14 @@ Equiv(par, seq) ==
 Mode(seq) == IF seq.ex THEN "exact" ELSE IF seq.by # NoCmp THEN "cls" ELSE "bag"
 
 \* ================================================================ the scan as a state machine
-VARIABLES
-  phase,                   \* "pick" (case chosen) -> "run" (derived values computed, Pull steps)
-  lay, desc, prog, nleg,   \* the case (constant along a behaviour)
-  plan, meta, rows,        \* PlanOf(prog, desc), Metas(lay, desc), ObjRows(lay, desc)
-  seqres,                  \* the sequential (parallelism 1) result of the case
-  lo,                      \* Lister: objects not yet handed out (l.objects), pruned ones removed
-  lorder,                  \* the Lister order fixed at initObjectScan
-  stash, smin, smax,       \* Slicer: s.objects, s.min, s.max
-  parts,                   \* parts[l]: partitions (sequences of object ids) received by leg l
-  done,                    \* done[l]: leg l stopped pulling (its lifted head is satisfied)
-  served                   \* history: <<leg, objects pulled from the Lister during that Pull>>
-
-vars == <<phase, lay, desc, prog, nleg, plan, meta, rows, seqres, lo, lorder, stash, smin, smax, parts, done, served>>
-
-Exhausted == lo = <<>> /\ stash = <<>>
-LegSet == 1..nleg
-
-\* leg operators before a lifted head (the head counts their output)
-LegHeadOf(pl) == IF pl.legs # <<>> /\ Kind(pl.legs[Len(pl.legs)].op) = "head" THEN Limit(pl.legs[Len(pl.legs)].op) ELSE 0
-LegHead == LegHeadOf(plan)
-LegPre == IF LegHead > 0 THEN SubSeq(plan.legs, 1, Len(plan.legs) - 1) ELSE plan.legs
-LegInput(ps) == ScanStream(rows, ps, desc, plan.filter, plan.slicer)
-LegOut(ps) == ApplyOps(plan.legs, LegInput(ps))
-
-Terminal == phase = "run" /\ (Exhausted \/ \A l \in LegSet : done[l])
+\* Everything that depends only on the case is tabulated at constant level
+\* (TLC evaluates constant definitions once); the state holds the case and
+\* the Lister / Slicer / leg state only.
+BOOL == {FALSE, TRUE}
+DescSet == {d = "desc" : d \in Dirs}
+PlanTab == [p \in Progs |-> [d \in DescSet |-> PlanOf(p, d)]]
+RowsTab == [l \in LayoutSet |-> [d \in DescSet |-> ObjRows(l, d)]]
+MetaTab == [l \in LayoutSet |-> [d \in DescSet |-> Metas(l, d)]]
 
 \* lister.go initObjectScan: stable sort of the snapshot's objects.  Objects with
 \* identical [min,max] tie (the snapshot is a Go map, so their relative order is
@@ -573,40 +556,63 @@ InsertObj(o, t, m, d) ==
   ELSE <<t[1]>> \o InsertObj(o, Tail(t), m, d)
 RECURSIVE ListerSort(_, _, _)
 ListerSort(n, m, d) == IF n = 0 THEN <<>> ELSE InsertObj(n, ListerSort(n - 1, m, d), m, d)
-\* (InsertObj places o before the first strictly greater element, i.e. after its ties: stable)
+\* lorder by [layout][desc][is "k >= 2" pushed down]
+LorderTab == [l \in LayoutSet |-> [d \in DescSet |-> [wk \in BOOL |->
+                LET m == MetaTab[l][d]
+                IN SelectSeq(ListerSort(Len(l), m, d), LAMBDA o : ~(wk /\ CmpV(I(2), m[o].mx, TRUE) > 0))]]]
 
-SeqResultOf(pl, rw, m, lor, d, pg) ==
-  LET ps == IF pl.slicer THEN SlicerAll(m, lor, <<>>, NONE, NONE) ELSE [i \in 1..Len(lor) |-> <<lor[i]>>]
-      ops == Expand(pg)
-  IN ApplyOps(Plain(SubSeq(ops, Len(pl.filter) + 1, Len(ops))), ScanStream(rw, ps, d, pl.filter, pl.slicer))
+VARIABLES
+  lay, desc, prog, nleg,   \* the case (constant along a behaviour)
+  lo,                      \* Lister: objects not yet handed out (l.objects), pruned ones removed
+  stash, smin, smax,       \* Slicer: s.objects, s.min, s.max
+  parts,                   \* parts[l]: partitions (sequences of object ids) received by leg l
+  done,                    \* done[l]: leg l stopped pulling (its lifted head is satisfied)
+  served                   \* history: <<leg, objects pulled from the Lister during that Pull>>
+
+vars == <<lay, desc, prog, nleg, lo, stash, smin, smax, parts, done, served>>
+
+plan == PlanTab[prog][desc]
+rows == RowsTab[lay][desc]
+meta == MetaTab[lay][desc]
+HasWK(pl) == \E i \in 1..Len(pl.filter) : pl.filter[i] = "WK"
+lorder == LorderTab[lay][desc][HasWK(plan)]
+
+Exhausted == lo = <<>> /\ stash = <<>>
+LegSet == 1..nleg
+
+\* leg operators before a lifted head (the head counts their output)
+LegHeadOf(pl) == IF pl.legs # <<>> /\ Kind(pl.legs[Len(pl.legs)].op) = "head" THEN Limit(pl.legs[Len(pl.legs)].op) ELSE 0
+LegHead == LegHeadOf(plan)
+LegInput(ps) == ScanStream(rows, ps, desc, plan.filter, plan.slicer)
+LegOut(ps) == ApplyOps(plan.legs, LegInput(ps))
+\* number of values that reach the lifted head of a leg holding the partitions
+\* ps: the operators in front of it are per-row, only filters drop rows
+HeadFeed(pl, rw, ps) ==
+  LET lf == SelectSeq([i \in 1..Len(pl.legs) |-> pl.legs[i].op], LAMBDA o : Kind(o) = "filter")
+      n(o) == Cardinality({j \in 1..Len(rw[o]) : Keep(pl.filter, rw[o][j]) /\ Keep(lf, rw[o][j])})
+  IN SumSeq(Concat([i \in 1..Len(ps) |-> [j \in 1..Len(ps[i]) |-> n(ps[i][j])]]))
+
+Terminal == Exhausted \/ \A l \in LegSet : done[l]
+
+SeqResult ==
+  LET ps == IF plan.slicer THEN SlicerAll(meta, lorder, <<>>, NONE, NONE) ELSE [i \in 1..Len(lorder) |-> <<lorder[i]>>]
+      ops == Expand(prog)
+  IN ApplyOps(Plain(SubSeq(ops, Len(plan.filter) + 1, Len(ops))), ScanStream(rows, ps, desc, plan.filter, plan.slicer))
 
 Init ==
-  /\ phase = "pick"
   /\ lay \in LayoutSet
-  /\ desc \in {d = "desc" : d \in Dirs}
+  /\ desc \in DescSet
   /\ prog \in Progs
   /\ nleg \in LegCounts
-  /\ plan = <<>> /\ meta = <<>> /\ rows = <<>> /\ seqres = <<>> /\ lorder = <<>> /\ lo = <<>>
+  /\ lo = LorderTab[lay][desc][HasWK(PlanTab[prog][desc])]
   /\ stash = <<>> /\ smin = NONE /\ smax = NONE
-  /\ parts = <<>> /\ done = <<>> /\ served = <<>>
-
-Setup ==
-  /\ phase = "pick"
-  /\ phase' = "run"
-  /\ LET pl == PlanOf(prog, desc)
-         m  == Metas(lay, desc)
-         rw == ObjRows(lay, desc)
-         lor == SelectSeq(ListerSort(Len(lay), m, desc), LAMBDA o : ~Pruned(pl.filter, m[o]))
-     IN /\ plan' = pl /\ meta' = m /\ rows' = rw /\ lorder' = lor /\ lo' = lor
-        /\ seqres' = SeqResultOf(pl, rw, m, lor, desc, prog)
-  /\ parts' = [l \in LegSet |-> <<>>]
-  /\ done' = [l \in LegSet |-> FALSE]
-  /\ UNCHANGED <<lay, desc, prog, nleg, stash, smin, smax, served>>
+  /\ parts = [l \in 1..nleg |-> <<>>]
+  /\ done = [l \in 1..nleg |-> FALSE]
+  /\ served = <<>>
 
 \* One Lister.Pull / Slicer.Pull critical section by leg l.  Legs are
 \* interchangeable copies: leg l pulls for the first time only after leg l-1.
 Pull(l) ==
-  /\ phase = "run"
   /\ ~Terminal
   /\ ~done[l]
   /\ IF l = 1 THEN TRUE ELSE parts[l-1] # <<>>
@@ -616,10 +622,10 @@ Pull(l) ==
      IN /\ lo' = r.lo /\ stash' = r.stash /\ smin' = r.smin /\ smax' = r.smax
         /\ parts' = [parts EXCEPT ![l] = np]
         /\ served' = Append(served, <<l, r.pulled>>)
-        /\ done' = [done EXCEPT ![l] = LegHead > 0 /\ Len(ApplyOps(LegPre, LegInput(np)).s) >= LegHead]
-  /\ UNCHANGED <<phase, lay, desc, prog, nleg, plan, meta, rows, seqres, lorder>>
+        /\ done' = [done EXCEPT ![l] = LegHead > 0 /\ HeadFeed(plan, rows, np) >= LegHead]
+  /\ UNCHANGED <<lay, desc, prog, nleg>>
 
-Next == Setup \/ \E l \in LegSet : Pull(l)
+Next == \E l \in LegSet : Pull(l)
 Spec == Init /\ [][Next]_vars
 
 \* ---------------------------------------------------------------- results
@@ -644,7 +650,7 @@ Taint ==
 AllObjs == {lorder[i] : i \in 1..Len(lorder)}
 Handed == UNION {UNION {SeqRange(parts[l][i]) : i \in 1..Len(parts[l])} : l \in LegSet}
 \* every object is in exactly one place: still listed, stashed, or in exactly one partition of one leg
-HandedOnce == phase = "run" =>
+HandedOnce ==
   /\ Handed \cup SeqRange(stash) \cup SeqRange(lo) = AllObjs
   /\ Len(lo) + Len(stash) + SumSeq(Concat([l \in LegSet |-> [i \in 1..Len(parts[l]) |-> Len(parts[l][i])]])) = Len(lorder)
 
@@ -660,7 +666,7 @@ PartitionsOrdered ==
 SlicerSorted ==
   plan.slicer => Concat([i \in 1..Len(AllParts) |-> PartRows(rows, AllParts[i], desc, <<>>)])
                    = StableSort(Concat([i \in 1..Len(lorder) |-> rows[lorder[i]]]), PoolC(desc))
-InitInv == (phase = "run" /\ served = <<>>) => PartitionsOrdered /\ SlicerSorted
+InitInv == served = <<>> => PartitionsOrdered /\ SlicerSorted
 
 \* partial aggregation rows are combined exactly once: for a split count the
 \* final counts add up to the number of rows the legs scanned
@@ -690,7 +696,7 @@ Hash == Len(served) + SumSeq([i \in 1..Len(served) |-> served[i][1] * i]) + Len(
 \* counterexample is visible, then the property.
 ResultOK ==
   Terminal =>
-    LET seq == seqres  par == ParResult
+    LET seq == SeqResult  par == ParResult
         emit == EmitMod > 0 /\ Hash % EmitMod = EmitRem
     IN /\ emit => PrintT(ToJson(CaseJson(seq, par)))
        /\ (seq.det /\ Taint = {}) => (par.det /\ Equiv(par, seq))
